@@ -60,9 +60,9 @@ def choose_batch(rng, b, res):
             break
         if not oracle.in_domain_rsmi(rx):
             continue
-        t0 = time.time()
+        t0 = time.process_time()  # CPU time: the selection must not depend on machine load
         out, _, err = pipeline.run(b, [rx])
-        dt = time.time() - t0
+        dt = time.process_time() - t0
         if err or not out or dt > 0.45:
             continue
         if out[0].get("solved_by") == "mcs-based" and len(mcs) < 4:
